@@ -360,6 +360,8 @@ def native_replay_subprocess(pid, violation, timeout=60):
             try:
                 r = subprocess.run([sys.executable, os.path.join(VERIF, 'run.py'), pid, '--replay', path],
                                    capture_output=True, text=True, timeout=timeout * attempt)
+                if r.returncode != 1 and os.environ.get('VERIF_REPLAY_DEBUG'):
+                    print(f'[replay exit {r.returncode}] ' + (r.stdout + r.stderr)[-1500:], file=sys.stderr)
                 return r.returncode == 1
             except subprocess.TimeoutExpired:
                 continue
